@@ -57,4 +57,11 @@ PROPERTIES
   Act_C08_Callback
   Act_C08_Funds
   Act_C13_OnceOnTime
+  Act_C07_RequestRecords
+  Act_C07_WithdrawTo
+  Act_C08_OneOutcomeH
+  Act_C08_AuthorityH
+  Act_C08_ScheduleH
+  Act_C08_BatchDue
+  Act_C13_QueueH
 CHECK_DEADLOCK FALSE
